@@ -164,3 +164,162 @@ Theorem C06_advanced_unpruned_exact :
            path_found r = true /\ path_length r = d.
 Proof. exact @advanced_unpruned_exact. Qed.
 Print Assumptions C06_advanced_unpruned_exact.
+
+From V Require Import Base Tensor Graph GraphProofs GraphImpl Hash Def Paths BfsStep Bfs BfsRun BfsProofs PathsProofs Mitm MitmProofs PathRun MitmFind Interactive InteractiveBetween Beam BeamProofs Walks WalksProofs AlgoRun InstPerm InstSmall InstBfs InstPaths InstShared InstMatrix InstMatrixBfs InstBeam InstWalks.
+
+(* the unpruned-beam theorem with the ORBIT of the start state as universe (the right instantiation: a beam wider than the orbit, not than the set of all conceivable states) *)
+Theorem C06_orbit_simple_unpruned_exact :
+  forall (G Ginv : impl) (U : state -> Prop),
+         closed state (acts G) U ->
+         (forall a b : state, U a -> U b -> hashf G a = hashf G b -> a = b) ->
+         (is_identity G = true -> forall a : state, U a -> unword G (hashf G a) = a) ->
+         forall start : state,
+         U start ->
+         forall (inv_map : option (list nat)) (width : nat) (max_steps : BinNums.N) (k : nat),
+         wider_than_orbit G start width ->
+         dist_is state (acts G) (start :: nil) (central G) k ->
+         k <= BinNat.N.to_nat max_steps ->
+         exists r : beam_result,
+           search_simple G Ginv inv_map width false None start max_steps nil = Ok r /\
+           path_found r = true /\ path_length r = k.
+Proof. exact @orbit_simple_unpruned_exact. Qed.
+Print Assumptions C06_orbit_simple_unpruned_exact.
+
+(* END TO END on env_of d (well-formed permutation description): a reported success is a real walk of the reported length and a returned path replays to the central state; only NoColl remains *)
+Theorem C06_perm_simple_sound_noball :
+  forall (d : gdesc) (inv_mats : list (list (list BinNums.Z))) (e : path_env),
+         wf_perm_desc d ->
+         env_of d inv_mats = Some e ->
+         NoCollOn (impl_of d) (Ustates d) ->
+         forall start : state,
+         Ustates d start ->
+         forall (inv_map : option (list nat)) (width : nat) (return_path : bool)
+           (max_steps : BinNums.N) (sels : list selection) (r : beam_result),
+         search_simple (pe_G e) (pe_Ginv e) inv_map width return_path None start max_steps sels =
+         Ok r ->
+         path_found r = true ->
+         reach state (acts (impl_of d)) (start :: nil) (path_length r) (g_central d) /\
+         (forall p : list nat,
+          bpath r = Some p ->
+          length p = path_length r /\ run state (acts (impl_of d)) start p = Some (g_central d)).
+Proof. exact @beam_perm_simple_sound_noball. Qed.
+Print Assumptions C06_perm_simple_sound_noball.
+
+(* the same with the ball computed by the BFS model, as run_beam does *)
+Theorem C06_perm_simple_sound_ball_e2e :
+  forall (d : gdesc) (inv_mats : list (list (list BinNums.Z))) (e : path_env),
+         wf_perm_desc d ->
+         env_of d inv_mats = Some e ->
+         NoCollOn (impl_of d) (Ustates d) ->
+         forall start : state,
+         Ustates d start ->
+         forall (batch : BinNums.Z) (depth : BinNums.N) (explore : BinNums.Z)
+           (lh : list (list BinNums.Z)) (ns width : nat) (return_path : bool) 
+           (max_steps : BinNums.N) (sels : list selection) (r : beam_result),
+         inv_closed (pe_G e) = true ->
+         BinInt.Z.le (BinNums.Zpos BinNums.xH) batch ->
+         ball_of (pe_G e) batch depth explore (g_central d :: nil) = Ok (lh, ns) ->
+         search_simple (pe_G e) (pe_Ginv e) (pe_invmap e) width return_path 
+           (Some (lh, ns)) start max_steps sels = Ok r ->
+         path_found r = true ->
+         reach state (acts (impl_of d)) (start :: nil) (path_length r) (g_central d) /\
+         (forall p : list nat,
+          bpath r = Some p ->
+          length p = path_length r /\ run state (acts (impl_of d)) start p = Some (g_central d)).
+Proof. exact @beam_perm_simple_sound_ball_e2e. Qed.
+Print Assumptions C06_perm_simple_sound_ball_e2e.
+
+(* advanced mode, one-word identity hash: no hash hypothesis *)
+Theorem C06_perm_advanced_sound_unconditional :
+  forall (d : gdesc) (inv_mats : list (list (list BinNums.Z))) (e : path_env),
+         wf_perm_desc d ->
+         env_of d inv_mats = Some e ->
+         g_hasher d = HIdentity ->
+         single_word d ->
+         forall start : state,
+         Ustates d start ->
+         forall (width history : nat) (max_steps : BinNums.N) (sels : list selection)
+           (r : beam_result),
+         search_advanced (pe_G e) width history start (g_central d) max_steps sels = Ok r ->
+         path_found r = true ->
+         reach state (acts (impl_of d)) (start :: nil) (path_length r) (g_central d).
+Proof. exact @beam_perm_advanced_sound_unconditional. Qed.
+Print Assumptions C06_perm_advanced_sound_unconditional.
+
+(* a beam wider than n!+1, budget >= distance: success with exactly the shortest distance - no hypothesis beyond well-formedness (one-word identity hash) *)
+Theorem C06_perm_simple_unpruned_exact_fact_unconditional :
+  forall (d : gdesc) (inv_mats : list (list (list BinNums.Z))) (e : path_env),
+         wf_perm_desc d ->
+         env_of d inv_mats = Some e ->
+         g_hasher d = HIdentity ->
+         single_word d ->
+         forall start : state,
+         Ustates d start ->
+         forall (inv_map : option (list nat)) (width : nat) (max_steps : BinNums.N) (k : nat),
+         Factorial.fact (desc_n d) + 1 < width ->
+         dist_is state (acts (impl_of d)) (start :: nil) (g_central d) k ->
+         k <= BinNat.N.to_nat max_steps ->
+         exists r : beam_result,
+           search_simple (pe_G e) (pe_Ginv e) inv_map width false None start max_steps nil = Ok r /\
+           path_found r = true /\ path_length r = k.
+Proof. exact @beam_perm_simple_unpruned_exact_fact_unconditional. Qed.
+Print Assumptions C06_perm_simple_unpruned_exact_fact_unconditional.
+
+(* the same for the advanced mode and every history depth *)
+Theorem C06_perm_advanced_unpruned_exact_fact_unconditional :
+  forall (d : gdesc) (inv_mats : list (list (list BinNums.Z))) (e : path_env),
+         wf_perm_desc d ->
+         env_of d inv_mats = Some e ->
+         g_hasher d = HIdentity ->
+         single_word d ->
+         forall start : state,
+         Ustates d start ->
+         forall (width history : nat) (max_steps : BinNums.N) (k : nat),
+         Factorial.fact (desc_n d) + 1 < width ->
+         dist_is state (acts (impl_of d)) (start :: nil) (g_central d) k ->
+         k <= BinNat.N.to_nat max_steps ->
+         exists r : beam_result,
+           search_advanced (pe_G e) width history start (g_central d) max_steps nil = Ok r /\
+           path_found r = true /\ path_length r = k.
+Proof. exact @beam_perm_advanced_unpruned_exact_fact_unconditional. Qed.
+Print Assumptions C06_perm_advanced_unpruned_exact_fact_unconditional.
+
+(* END TO END for matrix groups (wf_matrix_core, wf_inv_mats, NoCollMat) *)
+Theorem C06_matrix_simple_sound_noball :
+  forall (d : gdesc) (inv_mats : list (list (list BinNums.Z))) (e : path_env),
+         wf_matrix_core d = true ->
+         wf_inv_mats d inv_mats = true ->
+         env_of d inv_mats = Some e ->
+         NoCollMat d ->
+         forall start : state,
+         Umat d start ->
+         forall (inv_map : option (list nat)) (width : nat) (return_path : bool)
+           (max_steps : BinNums.N) (sels : list selection) (r : beam_result),
+         search_simple (pe_G e) (pe_Ginv e) inv_map width return_path None start max_steps sels =
+         Ok r ->
+         path_found r = true ->
+         reach state (acts (impl_of d)) (start :: nil) (path_length r) (g_central d) /\
+         (forall p : list nat,
+          bpath r = Some p ->
+          length p = path_length r /\ run state (acts (impl_of d)) start p = Some (g_central d)).
+Proof. exact @beam_matrix_simple_sound_noball. Qed.
+Print Assumptions C06_matrix_simple_sound_noball.
+
+(* matrix groups, unpruned advanced mode exact *)
+Theorem C06_matrix_advanced_unpruned_exact :
+  forall (d : gdesc) (inv_mats : list (list (list BinNums.Z))) (e : path_env),
+         wf_matrix_core d = true ->
+         wf_inv_mats d inv_mats = true ->
+         env_of d inv_mats = Some e ->
+         NoCollMat d ->
+         forall start : state,
+         Umat d start ->
+         forall (width history : nat) (max_steps : BinNums.N) (k : nat),
+         wider_than_orbit (impl_of d) start width ->
+         dist_is state (acts (impl_of d)) (start :: nil) (g_central d) k ->
+         k <= BinNat.N.to_nat max_steps ->
+         exists r : beam_result,
+           search_advanced (pe_G e) width history start (g_central d) max_steps nil = Ok r /\
+           path_found r = true /\ path_length r = k.
+Proof. exact @beam_matrix_advanced_unpruned_exact. Qed.
+Print Assumptions C06_matrix_advanced_unpruned_exact.
